@@ -23,11 +23,12 @@
 (***************************************************************************)
 EXTENDS Integers, Sequences, FiniteSets, TLC
 
-CONSTANTS NProgs,      \* number of successfully loaded programs
+CONSTANTS ProgCounts,  \* numbers of successfully loaded programs explored by Init
           FileSets,    \* set of file configurations explored by Init: sequences of [n, tail]
           MUT_CloseBeforeDrain, MUT_NoFinish, MUT_VmDropped, MUT_WaitCycle
 
 VARIABLES
+  np,        \* number of programs (VMs)
   files,     \* sequence of [n |-> number of lines, tail |-> last line unterminated]
   st,        \* file stream goroutine: [pc \in read/offer/finish/close/exit/done, i]  (i = lines handed over)
   sclosed,   \* stream's own lines channel closed
@@ -49,15 +50,16 @@ VARIABLES
   sentall,   \* history: lines received by the fan-out goroutine, in order
   panic      \* a send on a closed channel happened
 
-vars == <<files, st, sclosed, fw, twg, tctx, tA, tB, lclosed, fan, hclosed, vm, sig, rwg, rsh, mwg,
+vars == <<np, files, st, sclosed, fw, twg, tctx, tA, tB, lclosed, fan, hclosed, vm, sig, rwg, rsh, mwg,
           returned, processed, sentall, panic>>
 
 F == 1..Len(files)
-Progs == 1..NProgs
+Progs == 1..np
 Terminated(f) == IF files[f].tail /\ files[f].n > 0 THEN files[f].n - 1 ELSE files[f].n
 NoLine == <<0, 0>>
 
-InitWith(fs) ==
+InitWith(n, fs) ==
+  /\ np = n
   /\ files = fs
   /\ st = [f \in 1..Len(fs) |-> [pc |-> "read", i |-> 0]]
   /\ sclosed = [f \in 1..Len(fs) |-> FALSE]
@@ -65,18 +67,18 @@ InitWith(fs) ==
   /\ twg = 2 * Len(fs)
   /\ tctx = FALSE /\ tA = "wait" /\ tB = "ctx" /\ lclosed = FALSE
   /\ fan = [pc |-> "recv", line |-> NoLine, todo |-> {}]
-  /\ hclosed = [p \in Progs |-> FALSE]
-  /\ vm = [p \in Progs |-> [pc |-> "recv", line |-> NoLine]]
+  /\ hclosed = [p \in 1..n |-> FALSE]
+  /\ vm = [p \in 1..n |-> [pc |-> "recv", line |-> NoLine]]
   /\ sig = "wait"
-  /\ rwg = 2 + NProgs
+  /\ rwg = 2 + n
   /\ rsh = "wait"
   /\ mwg = IF MUT_WaitCycle THEN 4 ELSE 3      \* runtime shutdown goroutine + the tailer's two
   /\ returned = FALSE
-  /\ processed = [p \in Progs |-> <<>>]
+  /\ processed = [p \in 1..n |-> <<>>]
   /\ sentall = <<>>
   /\ panic = FALSE
 
-Init == \E fs \in FileSets : InitWith(fs)
+Init == \E n \in ProgCounts, fs \in FileSets : InitWith(n, fs)
 
 -----------------------------------------------------------------------------
 (* filestream.go stream(), one-shot *)
@@ -85,21 +87,21 @@ Init == \E fs \in FileSets : InitWith(fs)
 StreamOffer(f) ==
   /\ st[f].pc = "read" /\ st[f].i < Terminated(f)
   /\ st' = [st EXCEPT ![f].pc = "offer"]
-  /\ UNCHANGED <<files, sclosed, fw, twg, tctx, tA, tB, lclosed, fan, hclosed, vm, sig, rwg, rsh, mwg,
+  /\ UNCHANGED <<np, files, sclosed, fw, twg, tctx, tA, tB, lclosed, fan, hclosed, vm, sig, rwg, rsh, mwg,
                  returned, processed, sentall, panic>>
 
 \* Read returned (0, io.EOF) with everything sent: `if oneShot { lr.Finish(ctx) ...`
 StreamEof(f) ==
   /\ st[f].pc = "read" /\ st[f].i = Terminated(f)
   /\ st' = [st EXCEPT ![f].pc = IF st[f].i < files[f].n /\ ~MUT_NoFinish THEN "finish" ELSE "close"]
-  /\ UNCHANGED <<files, sclosed, fw, twg, tctx, tA, tB, lclosed, fan, hclosed, vm, sig, rwg, rsh, mwg,
+  /\ UNCHANGED <<np, files, sclosed, fw, twg, tctx, tA, tB, lclosed, fan, hclosed, vm, sig, rwg, rsh, mwg,
                  returned, processed, sentall, panic>>
 
 \* Finish: about to send the unterminated remainder   (hook lr.finish)
 StreamFinish(f) ==
   /\ st[f].pc = "finish"
   /\ st' = [st EXCEPT ![f].pc = "offer"]
-  /\ UNCHANGED <<files, sclosed, fw, twg, tctx, tA, tB, lclosed, fan, hclosed, vm, sig, rwg, rsh, mwg,
+  /\ UNCHANGED <<np, files, sclosed, fw, twg, tctx, tA, tB, lclosed, fan, hclosed, vm, sig, rwg, rsh, mwg,
                  returned, processed, sentall, panic>>
 
 \* rendezvous  stream `lr.lines <- line`  /  forwarder `for line := range l.Lines()`
@@ -108,7 +110,7 @@ FwdRecv(f) ==
   /\ LET i == st[f].i + 1 IN
        /\ fw' = [fw EXCEPT ![f] = [pc |-> "send", line |-> <<f, i>>]]
        /\ st' = [st EXCEPT ![f] = [pc |-> IF i = files[f].n THEN "close" ELSE "read", i |-> i]]
-  /\ UNCHANGED <<files, sclosed, twg, tctx, tA, tB, lclosed, fan, hclosed, vm, sig, rwg, rsh, mwg,
+  /\ UNCHANGED <<np, files, sclosed, twg, tctx, tA, tB, lclosed, fan, hclosed, vm, sig, rwg, rsh, mwg,
                  returned, processed, sentall, panic>>
 
 \* close(fs.lines); return
@@ -116,14 +118,14 @@ StreamClose(f) ==
   /\ st[f].pc = "close"
   /\ sclosed' = [sclosed EXCEPT ![f] = TRUE]
   /\ st' = [st EXCEPT ![f].pc = "exit"]
-  /\ UNCHANGED <<files, fw, twg, tctx, tA, tB, lclosed, fan, hclosed, vm, sig, rwg, rsh, mwg,
+  /\ UNCHANGED <<np, files, fw, twg, tctx, tA, tB, lclosed, fan, hclosed, vm, sig, rwg, rsh, mwg,
                  returned, processed, sentall, panic>>
 
 \* deferred: fd.Close(); wg.Done()
 StreamExit(f) ==
   /\ st[f].pc = "exit"
   /\ st' = [st EXCEPT ![f].pc = "done"] /\ twg' = twg - 1
-  /\ UNCHANGED <<files, sclosed, fw, tctx, tA, tB, lclosed, fan, hclosed, vm, sig, rwg, rsh, mwg,
+  /\ UNCHANGED <<np, files, sclosed, fw, tctx, tA, tB, lclosed, fan, hclosed, vm, sig, rwg, rsh, mwg,
                  returned, processed, sentall, panic>>
 
 (* tail.go TailPath: forwarder *)
@@ -131,10 +133,10 @@ StreamExit(f) ==
 \* rendezvous  forwarder `t.lines <- line`  /  fan-out `for line := range lines`; RLock   (hooks tail.fwd, rt.line.recv)
 FanRecv(f) ==
   /\ fw[f].pc = "send" /\ fan.pc = "recv" /\ ~lclosed
-  /\ fan' = [pc |-> IF NProgs = 0 THEN "recv" ELSE "send", line |-> fw[f].line, todo |-> Progs]
+  /\ fan' = [pc |-> IF np = 0 THEN "recv" ELSE "send", line |-> fw[f].line, todo |-> Progs]
   /\ fw' = [fw EXCEPT ![f] = [pc |-> "recv", line |-> NoLine]]
   /\ sentall' = Append(sentall, fw[f].line)
-  /\ UNCHANGED <<files, st, sclosed, twg, tctx, tA, tB, lclosed, hclosed, vm, sig, rwg, rsh, mwg,
+  /\ UNCHANGED <<np, files, st, sclosed, twg, tctx, tA, tB, lclosed, hclosed, vm, sig, rwg, rsh, mwg,
                  returned, processed, panic>>
 
 \* `t.lines <- line` on the closed channel (only reachable under MUT_CloseBeforeDrain)
@@ -142,21 +144,21 @@ FwdSendClosed(f) ==
   /\ fw[f].pc = "send" /\ lclosed
   /\ panic' = TRUE
   /\ fw' = [fw EXCEPT ![f] = [pc |-> "done", line |-> NoLine]]
-  /\ UNCHANGED <<files, st, sclosed, twg, tctx, tA, tB, lclosed, fan, hclosed, vm, sig, rwg, rsh, mwg,
+  /\ UNCHANGED <<np, files, st, sclosed, twg, tctx, tA, tB, lclosed, fan, hclosed, vm, sig, rwg, rsh, mwg,
                  returned, processed, sentall>>
 
 \* the stream's channel is closed: leave the range loop
 FwdSeesClose(f) ==
   /\ fw[f].pc = "recv" /\ sclosed[f]
   /\ fw' = [fw EXCEPT ![f].pc = "remove"]
-  /\ UNCHANGED <<files, st, sclosed, twg, tctx, tA, tB, lclosed, fan, hclosed, vm, sig, rwg, rsh, mwg,
+  /\ UNCHANGED <<np, files, st, sclosed, twg, tctx, tA, tB, lclosed, fan, hclosed, vm, sig, rwg, rsh, mwg,
                  returned, processed, sentall, panic>>
 
 \* delete(t.logstreams, pathname) under logstreamsMu (hook tail.remove); deferred t.wg.Done()
 FwdRemove(f) ==
   /\ fw[f].pc = "remove"
   /\ fw' = [fw EXCEPT ![f].pc = "done"] /\ twg' = twg - 1
-  /\ UNCHANGED <<files, st, sclosed, tctx, tA, tB, lclosed, fan, hclosed, vm, sig, rwg, rsh, mwg,
+  /\ UNCHANGED <<np, files, st, sclosed, tctx, tA, tB, lclosed, fan, hclosed, vm, sig, rwg, rsh, mwg,
                  returned, processed, sentall, panic>>
 
 (* tail.go New: the two shutdown goroutines *)
@@ -164,25 +166,25 @@ FwdRemove(f) ==
 TAWait ==
   /\ tA = "wait" /\ twg = 0
   /\ tA' = "done" /\ tctx' = TRUE /\ mwg' = mwg - 1
-  /\ UNCHANGED <<files, st, sclosed, fw, twg, tB, lclosed, fan, hclosed, vm, sig, rwg, rsh,
+  /\ UNCHANGED <<np, files, st, sclosed, fw, twg, tB, lclosed, fan, hclosed, vm, sig, rwg, rsh,
                  returned, processed, sentall, panic>>
 \* <-t.ctx.Done()
 TBCtx ==
   /\ tB = "ctx" /\ (tctx \/ MUT_CloseBeforeDrain)
   /\ tB' = "wait"
-  /\ UNCHANGED <<files, st, sclosed, fw, twg, tctx, tA, lclosed, fan, hclosed, vm, sig, rwg, rsh, mwg,
+  /\ UNCHANGED <<np, files, st, sclosed, fw, twg, tctx, tA, lclosed, fan, hclosed, vm, sig, rwg, rsh, mwg,
                  returned, processed, sentall, panic>>
 \* t.wg.Wait()
 TBWait ==
   /\ tB = "wait" /\ (twg = 0 \/ MUT_CloseBeforeDrain)
   /\ tB' = "close"
-  /\ UNCHANGED <<files, st, sclosed, fw, twg, tctx, tA, lclosed, fan, hclosed, vm, sig, rwg, rsh, mwg,
+  /\ UNCHANGED <<np, files, st, sclosed, fw, twg, tctx, tA, lclosed, fan, hclosed, vm, sig, rwg, rsh, mwg,
                  returned, processed, sentall, panic>>
 \* close(t.lines)  (hook tail.close just before); wg.Done()
 TBClose ==
   /\ tB = "close"
   /\ lclosed' = TRUE /\ tB' = "done" /\ mwg' = mwg - 1
-  /\ UNCHANGED <<files, st, sclosed, fw, twg, tctx, tA, fan, hclosed, vm, sig, rwg, rsh,
+  /\ UNCHANGED <<np, files, st, sclosed, fw, twg, tctx, tA, fan, hclosed, vm, sig, rwg, rsh,
                  returned, processed, sentall, panic>>
 
 (* runtime.go New: fan-out goroutine *)
@@ -193,7 +195,7 @@ FanSend(p) ==
   /\ processed' = [processed EXCEPT ![p] = Append(@, fan.line)]
   /\ LET rest == fan.todo \ {p} IN
        fan' = IF rest = {} THEN [pc |-> "recv", line |-> NoLine, todo |-> {}] ELSE [fan EXCEPT !.todo = rest]
-  /\ UNCHANGED <<files, st, sclosed, fw, twg, tctx, tA, tB, lclosed, hclosed, sig, rwg, rsh, mwg,
+  /\ UNCHANGED <<np, files, st, sclosed, fw, twg, tctx, tA, tB, lclosed, hclosed, sig, rwg, rsh, mwg,
                  returned, sentall, panic>>
 
 \* lines closed and drained: close(signalQuit); Lock; close every handle's channel; delete; Unlock; r.wg.Done()
@@ -203,14 +205,14 @@ FanEnd ==
   /\ fan' = [pc |-> "done", line |-> NoLine, todo |-> {}]
   /\ hclosed' = [p \in Progs |-> TRUE]
   /\ rwg' = rwg - 1
-  /\ UNCHANGED <<files, st, sclosed, fw, twg, tctx, tA, tB, lclosed, vm, sig, rsh, mwg,
+  /\ UNCHANGED <<np, files, st, sclosed, fw, twg, tctx, tA, tB, lclosed, vm, sig, rsh, mwg,
                  returned, processed, sentall, panic>>
 
 \* the SIGHUP goroutine sees signalQuit closed
 SigExit ==
   /\ sig = "wait" /\ fan.pc = "done"
   /\ sig' = "done" /\ rwg' = rwg - 1
-  /\ UNCHANGED <<files, st, sclosed, fw, twg, tctx, tA, tB, lclosed, fan, hclosed, vm, rsh, mwg,
+  /\ UNCHANGED <<np, files, st, sclosed, fw, twg, tctx, tA, tB, lclosed, fan, hclosed, vm, rsh, mwg,
                  returned, processed, sentall, panic>>
 
 (* vm.go Run *)
@@ -218,32 +220,32 @@ SigExit ==
 VmEnd(p) ==
   /\ vm[p].pc = "proc"
   /\ vm' = [vm EXCEPT ![p] = [pc |-> "recv", line |-> NoLine]]
-  /\ UNCHANGED <<files, st, sclosed, fw, twg, tctx, tA, tB, lclosed, fan, hclosed, sig, rwg, rsh, mwg,
+  /\ UNCHANGED <<np, files, st, sclosed, fw, twg, tctx, tA, tB, lclosed, fan, hclosed, sig, rwg, rsh, mwg,
                  returned, processed, sentall, panic>>
 \* the channel is closed: leave the loop (hook vm.exit)
 VmSeesClose(p) ==
   /\ vm[p].pc = "recv" /\ hclosed[p]
   /\ vm' = [vm EXCEPT ![p].pc = "exit"]
-  /\ UNCHANGED <<files, st, sclosed, fw, twg, tctx, tA, tB, lclosed, fan, hclosed, sig, rwg, rsh, mwg,
+  /\ UNCHANGED <<np, files, st, sclosed, fw, twg, tctx, tA, tB, lclosed, fan, hclosed, sig, rwg, rsh, mwg,
                  returned, processed, sentall, panic>>
 \* deferred wg.Done()
 VmExit(p) ==
   /\ vm[p].pc = "exit"
   /\ vm' = [vm EXCEPT ![p].pc = "done"] /\ rwg' = rwg - 1
-  /\ UNCHANGED <<files, st, sclosed, fw, twg, tctx, tA, tB, lclosed, fan, hclosed, sig, rsh, mwg,
+  /\ UNCHANGED <<np, files, st, sclosed, fw, twg, tctx, tA, tB, lclosed, fan, hclosed, sig, rsh, mwg,
                  returned, processed, sentall, panic>>
 
 (* runtime shutdown goroutine and Server.Run *)
 RtWait ==
   /\ rsh = "wait" /\ rwg = 0
   /\ rsh' = "done" /\ mwg' = mwg - 1
-  /\ UNCHANGED <<files, st, sclosed, fw, twg, tctx, tA, tB, lclosed, fan, hclosed, vm, sig, rwg,
+  /\ UNCHANGED <<np, files, st, sclosed, fw, twg, tctx, tA, tB, lclosed, fan, hclosed, vm, sig, rwg,
                  returned, processed, sentall, panic>>
 \* m.wg.Wait(); m.cancel(); return nil
 RunReturn ==
   /\ ~returned /\ mwg = 0
   /\ returned' = TRUE
-  /\ UNCHANGED <<files, st, sclosed, fw, twg, tctx, tA, tB, lclosed, fan, hclosed, vm, sig, rwg, rsh, mwg,
+  /\ UNCHANGED <<np, files, st, sclosed, fw, twg, tctx, tA, tB, lclosed, fan, hclosed, vm, sig, rwg, rsh, mwg,
                  processed, sentall, panic>>
 
 Finished == returned /\ UNCHANGED vars     \* the run is over: stutter (so that deadlock means a real one)
